@@ -234,7 +234,7 @@ pub fn analyse(case: &SmastCase, run: &MastRun) -> (Option<Violation>, bool, u64
     for (order, h) in &hist {
         match h {
             H::TaskStart { t, assoc, .. } | H::TaskFail { t, assoc, .. } => boundaries.push((*assoc, *t, *order)),
-            H::Request { t, dest, .. } => boundaries.push((*dest, t.saturating_sub(case.latency.0), *order)),
+            H::Request { t, dest, worder, .. } => boundaries.push((*dest, t.saturating_sub(case.latency.0), *worder)),
             _ => {}
         }
     }
